@@ -428,6 +428,59 @@ func channelFacts() {
 		})
 	}
 	defE("ch_sendQCap", capE)
+	// replacement of a stream: reconnect answers the requests written to the stream it replaces (under the write lock,
+	// after the "already up" test and before the new stream is created); sendMsg marks a request as written before it
+	// hands it to the stream; cancelPendingMsgs(true) skips the requests that are not marked
+	// (ConnMgr: replaceStream in sRcDo / rRcDo; Chan: replaceCancel / cancelWritten)
+	replaceCancels, markBeforeSend, skipsUnwritten := false, false, false
+	if f := p.findFunc("channel.go", "channel.reconnect"); f != nil {
+		if loop := firstFor(f); loop != nil {
+			iLock, iUpTest, iCancel, iCreate, iUnlock := -1, -1, -1, -1, -1
+			for k, st := range loop.Body.List {
+				src := p.src(st)
+				switch {
+				case strings.HasPrefix(src, "c.streamMut.Lock()") && iLock < 0:
+					iLock = k
+				case strings.HasPrefix(src, "if !c.streamBroken.get()") && iUpTest < 0:
+					iUpTest = k
+				case src == "c.cancelPendingMsgs(true)" && iCancel < 0:
+					iCancel = k
+				case strings.Contains(src, "c.gorumsClient.NodeStream(") && iCreate < 0:
+					iCreate = k
+				case strings.HasPrefix(src, "c.streamMut.Unlock()") && iUnlock < 0:
+					iUnlock = k
+				}
+			}
+			replaceCancels = iLock >= 0 && iLock < iUpTest && iUpTest < iCancel && iCancel < iCreate && (iUnlock < 0 || iCreate < iUnlock)
+		}
+	}
+	if f := p.findFunc("channel.go", "channel.sendMsg"); f != nil {
+		iMark, iSend := -1, -1
+		for k, st := range f.Body.List {
+			src := p.src(st)
+			if strings.HasPrefix(src, "c.markWritten(req.msg.Metadata.MessageID)") && iMark < 0 {
+				iMark = k
+			}
+			if strings.Contains(src, "c.gorumsStream.SendMsg(") && iSend < 0 {
+				iSend = k
+			}
+		}
+		markBeforeSend = iMark >= 0 && iMark < iSend
+		if g := p.findFunc("channel.go", "channel.markWritten"); g == nil || !p.mentions(g.Body, "router.written = true") || !p.mentions(g.Body, "c.responseMut.Lock()") {
+			markBeforeSend = false
+		}
+	}
+	if f := p.findFunc("channel.go", "channel.cancelPendingMsgs"); f != nil {
+		for _, i := range p.ifsWithBodyMentioning(f, "continue") {
+			c := p.src(i.Cond)
+			if c == "writtenOnly && !router.written" && len(i.Body.List) == 1 {
+				skipsUnwritten = true
+			}
+		}
+	}
+	defBool("ch_replaceCancels", replaceCancels)
+	defBool("ch_markBeforeSend", markBeforeSend)
+	defBool("ch_cancelSkipsUnwritten", skipsUnwritten)
 	// routers: the deletion guard in routeResponse / cancelPendingMsgs
 	for _, fn := range []string{"routeResponse", "cancelPendingMsgs"} {
 		g := missing("delete guard not found")
@@ -435,6 +488,9 @@ func channelFacts() {
 			ifs := p.ifsWithBodyMentioning(f, "delete(c.responseRouters")
 			if len(ifs) == 1 {
 				g = p.expr(ifs[0].Cond)
+			} else if len(ifs) == 0 && p.mentions(f.Body, "delete(c.responseRouters") {
+				// the deletion is not under any condition
+				g = "(.bool true)"
 			}
 		}
 		defE("ch_"+fn+"_delGuard", g)
